@@ -254,6 +254,18 @@ theorem nsx_merge_sublist (a b : List Entry) : a.Sublist (mergeNsx a b) ∧ b.Su
 /-- NSX: all rules of the merged part follow all rules merged so far. -/
 theorem nsx_append_after_all_netspoc_entries (a b : List Entry) : mergeNsx a b = a ++ b := rfl
 
+/-- PAN-OS objects: every object of both parts is in the merged vsys, each class in order. -/
+theorem pan_objects_merged (a b : PanObjs) :
+    (mergePanObjs a b).addresses = a.addresses ++ b.addresses ∧
+    (mergePanObjs a b).addressGroups = a.addressGroups ++ b.addressGroups ∧
+    (mergePanObjs a b).services = a.services ++ b.services ∧
+    (mergePanObjs a b).serviceGroups = a.serviceGroups ++ b.serviceGroups := ⟨rfl, rfl, rfl, rfl⟩
+
+/-- Code as found, F-C18h: a service-group of the raw (or IPv6) part is dropped. -/
+theorem pan_old_service_group_dropped_counterexample :
+    ∃ a b g, g ∈ b.serviceGroups ∧ g ∉ (mergePanObjsOld a b).serviceGroups :=
+  ⟨{}, { services := [81], serviceGroups := [1] }, 1, by decide⟩
+
 /-! ## The pipeline `loadSpoc`: IPv4, then IPv6, then raw (one ACL) -/
 
 theorem asa_pipeline_perm (v4 v6 raw : List Entry) :
@@ -477,6 +489,7 @@ def obligations : List Lean.Name := [
   ``linux_old_prepend_reversed_counterexample, ``linux_old_append_reordered_counterexample, ``linux_old_partial,
   ``pan_merge_perm, ``pan_merge_sublist, ``pan_raw_first, ``pan_append_after_all_netspoc_entries, ``pan_raw_whole_order,
   ``nsx_merge_perm, ``nsx_merge_sublist, ``nsx_append_after_all_netspoc_entries,
+  ``pan_objects_merged, ``pan_old_service_group_dropped_counterexample,
   ``asa_pipeline_perm, ``asa_pipeline_sublist,
   ``raw_unknown_command_reported, ``unknown_reference_reported, ``loadSpoc_reports_raw_parse_error,
   ``cisco_bound_twice_reported, ``cisco_old_bound_twice_counterexample, ``cisco_name_clash_reported,
